@@ -342,7 +342,9 @@ fn float_case(tag: i64, op: i64, a: &BigInt, b: &BigInt) -> Sx {
                 4 => vec![-a, -&a],
                 _ => return bad_case(),
             };
-            if rs.iter().any(|r| r.to_bits() != rs[0].to_bits()) {
+            // bit-for-bit, except that the payload / sign of a NaN result is unspecified in Rust
+            // (LLVM may commute the operands of `&a + b`): NaN results only have to be all NaN
+            if rs.iter().any(|r| r.to_bits() != rs[0].to_bits() && !(r.is_nan() && rs[0].is_nan())) {
                 return inconsistent(1950);
             }
             l(vec![z(1)])
